@@ -2330,6 +2330,50 @@ func fuzzyTrainedOnNames(c *Check, a *Anchors) {
 		return true
 	})
 	c.Floor("fuzzy-trained-on-names", n, 1)
+	// the words reach the model as they are: the trained slice is only ever extended with names / aliases — no element is
+	// rewritten (case folding, trimming ...), the slice is not mapped through a function on its way to Train
+	for _, call := range callsIn(trainer, false) {
+		fn, _ := callee(info, call).(*types.Func)
+		if fn == nil || fn.Name() != "Train" || len(call.Args) != 1 {
+			continue
+		}
+		w := varOf(info, call.Args[0])
+		why := ""
+		if w == nil {
+			why = "the model is trained on `" + exprStr(call.Args[0]) + "`, not on the accumulated list itself"
+		} else {
+			for _, d := range defsOf(info, trainer.Body, w) {
+				d = ast.Unparen(d)
+				if isNilLit(info, d) {
+					continue
+				}
+				dc, ok := d.(*ast.CallExpr)
+				okDef := ok && (isBuiltin(info, dc, "append") || isFunc(callee(info, dc), "slices", "", "Concat") || isBuiltin(info, dc, "make")) && (isBuiltin(info, dc, "make") || varOf(info, dc.Args[0]) == w)
+				if okDef && !isBuiltin(info, dc, "make") {
+					for _, arg := range dc.Args[1:] {
+						if _, isCall := ast.Unparen(arg).(*ast.CallExpr); isCall {
+							okDef = false // append(words, f(name))
+						}
+					}
+				}
+				if !okDef {
+					why = "the list is assigned `" + exprStr(d) + "`"
+				}
+			}
+			inspectBody(trainer.Body, func(m ast.Node) bool {
+				if as, ok := m.(*ast.AssignStmt); ok {
+					for _, l := range as.Lhs {
+						if ix, ok := ast.Unparen(l).(*ast.IndexExpr); ok && varOf(info, ix.X) == w {
+							why = "an element of the list is rewritten (`" + exprStr(l) + " = " + exprStr(as.Rhs[0]) + "`)"
+						}
+					}
+				}
+				return true
+			})
+		}
+		c.Decide(why == "", "fuzzy-trained-on-names", "words-unmodified@"+fnDisplay(trainer), call.Pos(), "the model is trained on the names and aliases as they are",
+			"the words do not reach the model as they are registered: "+why+". The suggestion is whatever word the model holds — a folded or otherwise rewritten name is not an existing task name (`Did you mean \"deploy\"?` for a task called Deploy)")
+	}
 }
 
 // aliasFromLocalName (C15 / C08): namespace aliases are built from the task's name inside its own file.
@@ -3850,4 +3894,240 @@ func elementLiteralCarriesFields(c *Check, a *Anchors, rule string) {
 	if n == 0 {
 		c.OK(rule, "no-rebuilt-element@task", 0, "package task rebuilds no ast element field by field (elements are made with DeepCopy, judged by copy-exhaustive); the stored change C03-r4a is the positive example of this rule")
 	}
+}
+
+// copyReturnsFresh (C09 / C11 / C18): a copy function never hands back what it was given.
+func copyReturnsFresh(c *Check, a *Anchors, rule string) {
+	c.Rule(rule, "no function of internal/deepcopy and no DeepCopy method of taskfile/ast returns its own argument / receiver (a pointer, slice or map) except on the edge where that value is nil: `if orig == nil || orig.Len() == 0 { return orig }` hands the caller the ORIGINAL empty container, which the merge and the task compiler then fill — the writes land in the shared definition (which of several users wins depends on iteration and scheduling order)")
+	n := 0
+	ord := map[string]int{}
+	for _, fb := range c.P.Bodies() {
+		if fb.Decl == nil {
+			continue
+		}
+		isCopy := fb.Pkg.PkgPath == PkgDeepcopy && fb.Decl.Name.IsExported() && fb.Decl.Name.Name != "TraverseStringsFunc"
+		if fb.Pkg.PkgPath == PkgAst && fb.Decl.Name.Name == "DeepCopy" && fb.Decl.Recv != nil {
+			isCopy = true
+		}
+		if !isCopy {
+			continue
+		}
+		info := fb.Info()
+		var inputs []*types.Var
+		add := func(fl *ast.FieldList) {
+			if fl == nil {
+				return
+			}
+			for _, fld := range fl.List {
+				for _, id := range fld.Names {
+					if v, ok := info.Defs[id].(*types.Var); ok {
+						switch v.Type().Underlying().(type) {
+						case *types.Pointer, *types.Slice, *types.Map:
+							inputs = append(inputs, v)
+						}
+					}
+				}
+			}
+		}
+		add(fb.Decl.Recv)
+		add(fb.Type.Params)
+		if len(inputs) == 0 {
+			continue
+		}
+		c.Fn(fb)
+		f := NewFlow(c.P, fb, func(*ast.CallExpr, types.Object) string { return "" })
+		f.NoInline = true
+		f.Run()
+		for _, r := range f.Returns {
+			if len(r.Results) == 0 {
+				continue
+			}
+			n++
+			v := varOf(info, r.Results[0])
+			self := false
+			for _, in := range inputs {
+				if v == in {
+					self = true
+				}
+			}
+			okNil := false
+			if self {
+				okNil = f.At[r].Has("nil:" + f.atomKey(r.Results[0], Facts{}))
+			}
+			c.Decide(!self || okNil, rule, ordinal(ord, "return@"+fnDisplay(fb)), r.Pos(), "returns a fresh value (or the nil it was given)",
+				fmt.Sprintf("%s returns its own argument `%s` on a path where it is not known to be nil: the caller gets the original (an empty container counts — it is filled later), not a copy", fnDisplay(fb), exprStrOrNone(r.Results[0])))
+		}
+	}
+	c.Floor(rule, n, 15)
+}
+
+// noSlotHeldAcrossRecursion (C16: reading always terminates): a token of a bounded channel is not kept while the holder recurses.
+func noSlotHeldAcrossRecursion(c *Check, a *Anchors, rule string) {
+	c.Rule(rule, "no function (or goroutine literal) of Task's own code sends a token into a channel field and keeps it — the matching receive is deferred — while it calls something that can re-enter its own enclosing function: with a bounded channel every level of the recursion holds a token while its descendants wait for one, so an include chain (or fan-out) deeper than the capacity blocks for ever")
+	n := 0
+	ord := map[string]int{}
+	reachCache := map[*FuncBody]map[*FuncBody]bool{}
+	for _, fb := range c.P.Bodies() {
+		if !strings.HasPrefix(fb.Pkg.PkgPath, Mod) || bceSkipPkgs[fb.Pkg.PkgPath] {
+			continue
+		}
+		info := fb.Info()
+		inspectBody(fb.Body, func(nd ast.Node) bool {
+			snd, ok := nd.(*ast.SendStmt)
+			if !ok {
+				return true
+			}
+			sel, ok := ast.Unparen(snd.Chan).(*ast.SelectorExpr)
+			if !ok {
+				return true
+			}
+			if s := info.Selections[sel]; s == nil || s.Kind() != types.FieldVal {
+				return true
+			}
+			key := exprStr(sel)
+			// the release is deferred: a defer after the send whose call receives from the same channel
+			deferredRelease := false
+			inspectBody(fb.Body, func(m ast.Node) bool {
+				d, ok := m.(*ast.DeferStmt)
+				if !ok || d.Pos() < snd.Pos() {
+					return true
+				}
+				ast.Inspect(d, func(x ast.Node) bool {
+					if u, ok := x.(*ast.UnaryExpr); ok && u.Op == token.ARROW && exprStr(ast.Unparen(u.X)) == key {
+						deferredRelease = true
+					}
+					return true
+				})
+				return true
+			})
+			if !deferredRelease {
+				return true
+			}
+			n++
+			c.Fn(fb.Root())
+			root := fb.Root()
+			var rec *ast.CallExpr
+			for _, call := range callsIn(fb, true) {
+				if call.Pos() < snd.End() {
+					continue
+				}
+				fn, _ := callee(info, call).(*types.Func)
+				d := c.P.DeclOf(fn)
+				if d == nil {
+					continue
+				}
+				if reachCache[d] == nil {
+					reachCache[d] = c.P.ReachableFrom([]*FuncBody{d}, nil)
+				}
+				if reachCache[d][root] {
+					rec = call
+				}
+			}
+			what := ""
+			if rec != nil {
+				what = exprStr(rec.Fun)
+			}
+			c.Decide(rec == nil, rule, ordinal(ord, "token "+key+"@"+fnDisplay(fb)), snd.Pos(), "the token is not held across a call that re-enters "+fnDisplay(root),
+				fmt.Sprintf("a token of %s is taken here and released only by a deferred receive, while %s — which can re-enter %s — is called in between: every level of the recursion keeps its token while its descendants wait for one; deeper (or wider) than the channel's capacity, reading never finishes", key, what, fnDisplay(root)))
+			return true
+		})
+	}
+	c.Extra["tokens_held_to_function_end"] = n
+	if n == 0 {
+		c.OK(rule, "no-token-held-to-function-end", 0, "no function of the module sends into a channel field and defers the matching receive; the stored change C16-r4a is the positive example of this rule")
+	}
+}
+
+// deepCopyNilSafe (C16): the generic copier calls DeepCopy on every element, nil ones included (a YAML null in a list).
+func deepCopyNilSafe(c *Check, a *Anchors, rule string) {
+	c.Rule(rule, "every DeepCopy method of taskfile/ast with a pointer receiver tests the receiver against nil before its first dereference (sibling agreement: deepcopy.Slice / Map / OrderedMap call DeepCopy on every element, and a `- null` entry of a list is a nil element): a method without the guard turns a null entry of an included Taskfile into a nil-pointer panic during the merge")
+	n := 0
+	for _, fb := range c.P.BodiesIn(PkgAst) {
+		if fb.Decl == nil || fb.Decl.Name.Name != "DeepCopy" || fb.Decl.Recv == nil || len(fb.Decl.Recv.List) != 1 || len(fb.Decl.Recv.List[0].Names) != 1 {
+			continue
+		}
+		info := fb.Info()
+		recv, _ := info.Defs[fb.Decl.Recv.List[0].Names[0]].(*types.Var)
+		if recv == nil {
+			continue
+		}
+		if _, isPtr := recv.Type().(*types.Pointer); !isPtr {
+			continue
+		}
+		n++
+		c.Fn(fb)
+		pm := parentMap(fb.Body)
+		isNilTest := func(e ast.Expr, op token.Token) bool {
+			be, ok := ast.Unparen(e).(*ast.BinaryExpr)
+			return ok && be.Op == op && ((varOf(info, be.X) == recv && isNilLit(info, be.Y)) || (varOf(info, be.Y) == recv && isNilLit(info, be.X)))
+		}
+		var disj func(e ast.Expr) bool // recv == nil is a disjunct of e
+		disj = func(e ast.Expr) bool {
+			e = ast.Unparen(e)
+			if isNilTest(e, token.EQL) {
+				return true
+			}
+			if be, ok := e.(*ast.BinaryExpr); ok && be.Op == token.LOR {
+				return disj(be.X) || disj(be.Y)
+			}
+			return false
+		}
+		var conj func(e ast.Expr) bool // recv != nil is a conjunct of e
+		conj = func(e ast.Expr) bool {
+			e = ast.Unparen(e)
+			if isNilTest(e, token.NEQ) {
+				return true
+			}
+			if be, ok := e.(*ast.BinaryExpr); ok && be.Op == token.LAND {
+				return conj(be.X) || conj(be.Y)
+			}
+			return false
+		}
+		var bad ast.Node
+		inspectDeep(fb.Body, func(nd ast.Node) bool {
+			var deref bool
+			switch x := nd.(type) {
+			case *ast.StarExpr:
+				deref = varOf(info, x.X) == recv
+			case *ast.SelectorExpr:
+				if varOf(info, x.X) == recv {
+					if s := info.Selections[x]; s != nil && (s.Kind() == types.FieldVal || s.Indirect()) {
+						deref = true
+					}
+				}
+			}
+			if !deref || bad != nil {
+				return true
+			}
+			guarded := false
+			// an earlier top-level `if recv == nil (|| ...) { return ... }`
+			for _, st := range fb.Body.List {
+				if st.End() > nd.Pos() {
+					break
+				}
+				if ifs, ok := st.(*ast.IfStmt); ok && disj(ifs.Cond) && len(ifs.Body.List) > 0 {
+					if _, isRet := ifs.Body.List[len(ifs.Body.List)-1].(*ast.ReturnStmt); isRet {
+						guarded = true
+					}
+				}
+			}
+			// or an enclosing `if recv != nil (&& ...)`
+			for p := pm[nd]; p != nil && !guarded; p = pm[p] {
+				if ifs, ok := p.(*ast.IfStmt); ok && within(nd, ifs.Body) && conj(ifs.Cond) {
+					guarded = true
+				}
+			}
+			if !guarded {
+				bad = nd
+			}
+			return true
+		})
+		pos := fb.Decl.Pos()
+		if bad != nil {
+			pos = bad.Pos()
+		}
+		c.Decide(bad == nil, rule, "nil-receiver@"+fnDisplay(fb), pos, "the receiver is tested against nil before it is dereferenced",
+			fnDisplay(fb)+" dereferences its receiver without a preceding nil test, unlike its sibling DeepCopy methods: the generic copier calls it on the nil element that a `- null` list entry decodes to, and the merge of an included Taskfile panics")
+	}
+	c.Floor(rule, n, 10)
 }
